@@ -23,7 +23,7 @@ ocaml: coq
 	@mkdir -p bin; set -e; for d in ocaml/*_driver.ml; do \
 	  [ -e "$$d" ] || continue; x=$$(basename $$d _driver.ml); \
 	  if [ ! -e bin/$$x ] || [ ocaml/$$x.ml -nt bin/$$x ] || [ $$d -nt bin/$$x ]; then \
-	    echo "ocamlopt $$x"; ( cd ocaml && ocamlfind ocamlopt -O2 -w -a -package str,unix -linkpkg $$x.mli $$x.ml $${x}_driver.ml -o ../bin/$$x 2>/dev/null || ocamlfind ocamlopt -w -a -package str,unix -linkpkg $$x.mli $$x.ml $${x}_driver.ml -o ../bin/$$x ); \
+	    echo "ocamlopt $$x"; ( cd ocaml && ocamlfind ocamlopt -O2 -w -a -package str,unix,zarith -linkpkg $$x.mli $$x.ml $${x}_driver.ml -o ../bin/$$x 2>/dev/null || ocamlfind ocamlopt -w -a -package str,unix,zarith -linkpkg $$x.mli $$x.ml $${x}_driver.ml -o ../bin/$$x ); \
 	  fi; done
 
 manifest:
